@@ -20,13 +20,18 @@ CFG = {
             "API surface (tags): `acc` (half of the cases; these read untracked twice as often) = accessor variety as in C01 incl. the five "
             "untracked accessors, `ctor`, `split`, `memoc` (leaf memos with a coarse comparator: their own runs depend on their sources only); "
             "`selector` (a sixth of the cases) = reactive_graph::computed::Selector with 1-4 keys, readers of every effect constructor / memos, "
-            "created before and after the selection moves; gated double reads (s, memo(s), s) for duplicate-edge bookkeeping",
+            "created before and after the selection moves; gated double reads (s, memo(s), s) for duplicate-edge bookkeeping; "
+            "watch kinds `weff/wieff/wseff/wsieff h<sig>` = Effect::watch / watch_sync whose HANDLER reads (with .get()) a signal the dependency "
+            "function does not read (`whandler`): a write to it must not re-invoke anything; `memoh` asymmetric comparator leaves; comparator / "
+            "prev-argument instrumentation as in C01; `imm` (an eighth) = ImmediateEffect::new over signals and memos over signals; `slice`, "
+            "`mapped`, `maybe`, `dropped`, `oncl`, `rieff` (RenderEffect::new_isomorphic) as in C01 / C02",
     "trusted": ["the harness counts invocations inside the real closures; versions (writes / changed recomputations) are kept by the harness",
                 "lean/LeptosModel/Model/ReactiveDriver.lean desugars `sel K e` into K flag signals + one render effect, `memoc` into `memo`, `acc` into nothing (header comment)"],
     "modelled": ["MemoInner::update_if_necessary (changed flag, Check resolution, skip-current-observer rule)", "EffectInner::{mark_dirty,mark_check,update_if_necessary}",
                  "Effect::new task loop", "channel.rs Sender/Receiver",
                  "by correspondence only: accessor / constructor / handle-family variety, Selector (as per-key flag signals written by a render effect)"],
-    "assumptions": ["Effect::new, new_sync, new_isomorphic, watch, RenderEffect::new and Selector::new are driven; ImmediateEffect and Selector::new_with_fn / remove / clear are not",
+    "assumptions": ["Effect::new, new_sync, new_isomorphic, watch, watch_sync, RenderEffect::new, RenderEffect::new_isomorphic, Selector::new and ImmediateEffect::new are driven; Selector::new_with_fn / remove / clear, ImmediateEffect::new_mut / new_scoped are not",
+                    "ImmediateEffect bodies are restricted to: no write, no untracked read, directly read nodes = signals or memos over signals with pairwise disjoint signal ancestors (one run per change there). Outside that class the unchanged code runs the effect - and through longer memo chains a memo body - twice per change (hooks/imm-glitch-demo); immediate-effect cases contain no writing effects, selectors or pause/dispose ops",
                     "a selector run's key bookkeeping (the harness keeps `selected(j) == (j == last source value)` as a versioned input) justifies the runs of its readers"],
     "manifest": {
         "category": "proof",
